@@ -172,6 +172,99 @@ def _query_fact(ctx, f):
     return p, out
 
 
+def _first_occurrences(ctx, f):
+    """(iterable, key expression, loop variable) when f is the first-occurrence filter
+    `out = []; seen = [] | set(); for x in IT: if KEY(x) not in seen: seen.append | add(KEY(x)); out.append(x)`; `return out`,
+    decided on the paths of the loop body (any nesting / order of the two updates); None when f has no such loop."""
+    body = docstring_free(f.body)
+    loops = [n for n in body if isinstance(n, ast.For)]
+    rets = [n for n in body if isinstance(n, ast.Return)]
+    sr = symex.returns(f)
+    if not loops and len(sr) == 1:
+        v = sr[0][1]        # list({K(x): x for x in IT}.values()): a later token replaces an earlier one with the same key
+        if isinstance(v, ast.Call) and F.is_name(v.func, 'list') and len(v.args) == 1 and isinstance(v.args[0], ast.Call) \
+                and isinstance(v.args[0].func, ast.Attribute) and v.args[0].func.attr == 'values' and isinstance(v.args[0].func.value, ast.DictComp):
+            dc = v.args[0].func.value
+            if len(dc.generators) == 1 and not dc.generators[0].ifs and isinstance(dc.generators[0].target, ast.Name) \
+                    and F.is_name(dc.value, dc.generators[0].target.id):
+                return dc.generators[0].iter, dc.key, dc.generators[0].target.id, 'last'
+    if len(loops) != 1 or len(rets) != 1 or not isinstance(loops[0].target, ast.Name) or loops[0].orelse:
+        return None
+    rv = rets[0].value
+    if isinstance(rv, ast.Call) and F.is_name(rv.func, 'list') and len(rv.args) == 1 and isinstance(rv.args[0], ast.Call) \
+            and isinstance(rv.args[0].func, ast.Attribute) and rv.args[0].func.attr == 'values' and isinstance(rv.args[0].func.value, ast.Name):
+        # the tokens indexed by a key in a dict (insertion order): D[K] = x keeps the LAST token of a key at the place of the
+        # first, D.setdefault(K, x) / `if K not in D: D[K] = x` keeps the first
+        d_name, lp, x = rv.args[0].func.value.id, loops[0], loops[0].target.id
+        inits0 = {n.targets[0].id: n.value for n in body if isinstance(n, ast.Assign) and len(n.targets) == 1 and isinstance(n.targets[0], ast.Name)}
+        if src(inits0.get(d_name)) not in ('{}', 'dict()'):
+            return None
+        key = None
+        kinds = set()
+        for sp in symex.sym_paths(lp.body, fi=f):
+            fm = sp.condition()
+            ats = G.atoms_of(fm)
+            stores = [e for e in sp.events if e.kind == 'store']
+            calls = [e.expr for e in sp.events if e.kind == 'expr' and isinstance(e.expr, ast.Call)]
+            if len(stores) + len(calls) > 1:
+                return None
+            if stores:
+                tg = stores[0].target
+                if not (isinstance(tg, ast.Subscript) and F.is_name(tg.value, d_name) and src(stores[0].expr) == x):
+                    return None
+                key = tg.slice
+                if not ats:
+                    kinds.add('last')
+                elif ats == [f'{src(key)} in {d_name}'] and not G.evaluate(fm, {ats[0]: True}):
+                    kinds.add('first')
+                else:
+                    return None
+            elif calls:
+                c = calls[0]
+                if not (isinstance(c.func, ast.Attribute) and c.func.attr == 'setdefault' and F.is_name(c.func.value, d_name) and len(c.args) == 2
+                        and src(c.args[1]) == x and not ats):
+                    return None
+                key = c.args[0]
+                kinds.add('first')
+        if key is None or len(kinds) != 1:
+            return None
+        return G.substitute(lp.iter, G.single_assignments(f.node)), key, x, kinds.pop()
+    if not isinstance(rv, ast.Name):
+        return None
+    out_name, lp, x = rets[0].value.id, loops[0], loops[0].target.id
+    inits = {}
+    for n in body:
+        if isinstance(n, ast.Assign) and len(n.targets) == 1 and isinstance(n.targets[0], ast.Name):
+            inits[n.targets[0].id] = n.value
+    if src(inits.get(out_name)) not in ('[]', 'list()'):
+        return None
+    key = seen = None
+    for sp in symex.sym_paths(lp.body, fi=f):
+        if sp.end not in ('fall', 'continue'):
+            return None
+        calls = [e.expr for e in sp.events if e.kind == 'expr' and isinstance(e.expr, ast.Call) and isinstance(e.expr.func, ast.Attribute)]
+        if len([e for e in sp.events if e.kind in ('expr', 'store')]) != len(calls):
+            return None
+        fm = sp.condition()
+        ats = G.atoms_of(fm)
+        if len(ats) != 1 or ' in ' not in ats[0]:
+            return None
+        k_src, _, s_name = ats[0].rpartition(' in ')
+        if src(inits.get(s_name)) not in ('[]', 'list()', 'set()'):
+            return None
+        if G.evaluate(fm, {ats[0]: True}):
+            if calls:
+                return None         # an encoding seen before: nothing is kept
+        else:
+            got = sorted(src(c) for c in calls)
+            if got not in (sorted([f'{s_name}.append({k_src})', f'{out_name}.append({x})']), sorted([f'{s_name}.add({k_src})', f'{out_name}.append({x})'])):
+                return None
+            key, seen = ast.parse(k_src, mode='eval').body, s_name
+    if key is None:
+        return None
+    return G.substitute(lp.iter, G.single_assignments(f.node)), key, x, 'first'
+
+
 def r3_siblings(ctx):
     ga = ctx.prog.func(f'{DOC}.get_all_tokens')
     gu = ctx.prog.func(f'{DOC}.get_unique_tokens')
@@ -182,9 +275,21 @@ def r3_siblings(ctx):
     ctx.check(fa == want(pa, 'False'), 'R3', ga.loc, ga.qualname, 'all-tokens-shape',
               'get_all_tokens = tokens of a depth-first traversal with TokensTraversal(False, valid(include=filter))',
               f'get_all_tokens is {fa}')
-    ctx.check(fu == want(pu, 'True'), 'R3', gu.loc, gu.qualname, 'unique-tokens-shape',
-              'get_unique_tokens differs from get_all_tokens only in the non_repeated flag',
-              f'get_unique_tokens is {fu}')
+    first = _first_occurrences(ctx, gu)
+    if first is not None:
+        # the other spelling of the same listing: the full listing, keeping the first token of every encoding
+        it_, key_, var_, which = first
+        ctx.check(F.same(ctx, gu, it_, f'self.get_all_tokens({pu})') and src(key_) == f'{var_}.encoding' and which == 'first', 'R3', gu.loc,
+                  gu.qualname, 'unique-tokens-shape',
+                  'get_unique_tokens = the full (filtered) listing, keeping the first token of every encoding',
+                  f'get_unique_tokens keeps the {which} token for every `{src(key_)}` of `{src(it_)[:80]}`: not the first token of every '
+                  f'encoding of the filtered listing')
+    else:
+        if not (len(fu) == 1 and len(fu[0][1]) == 1 and 'dfs_iterative(TokensTraversal(' in fu[0][1][0]):
+            raise AnalysisError(f'{gu.loc}: get_unique_tokens is neither a TokensTraversal listing nor a first-occurrence filter of the full listing')
+        ctx.check(fu == want(pu, 'True'), 'R3', gu.loc, gu.qualname, 'unique-tokens-shape',
+                  'get_unique_tokens differs from get_all_tokens only in the non_repeated flag',
+                  f'get_unique_tokens is {fu}')
     for name, base in (('get_all_tokens_encodings', 'get_all_tokens'), ('get_unique_token_encodings', 'get_unique_tokens')):
         f = ctx.prog.func(f'{DOC}.{name}')
         rets = symex.returns(f)
@@ -214,26 +319,72 @@ def r3_siblings(ctx):
     okf = len(loops) == 1 and D is not None and isinstance(loops[0].target, ast.Name) \
         and F.same(ctx, fr, G.substitute(loops[0].iter, env_fr), f'self.get_all_tokens({p})') \
         and any(isinstance(n, ast.Assign) and F.is_name(n.targets[0], D) and src(n.value) in ('{}', 'dict()') for n in walk_local(fr.node))
+    why_f = ''
     if okf:
         t = loops[0].target.id
+        K = f'{t}.encoding'
+        ENTRY = {f'{D}[{K}]', f'{D}.get({K})', f'{D}.get({K}, None)'}
+        seen_cases = set()
         for sp in symex.sym_paths(loops[0].body, fi=fr):
-            adds = [e for e in sp.events if e.kind in ('store',)]
-            fm = sp.condition()
-            a = f'{t}.encoding in {D}'
-            ats = G.atoms_of(fm)
-            if ats != [a] or len(adds) != 1:
-                okf = False
+            if sp.end == 'raise':
                 continue
-            e = adds[0]
-            if G.evaluate(fm, {a: True}):
-                okf = okf and isinstance(e.node, ast.AugAssign) and isinstance(e.node.op, ast.Add) and src(e.node.value) == '1' \
-                    and src(e.node.target) == f"{D}[{t}.encoding]['occurrences']"
-            else:
-                okf = okf and isinstance(e.node, ast.Assign) and src(e.node.targets[0]) == f'{D}[{t}.encoding]' \
-                    and isinstance(e.node.value, ast.Dict) and "'occurrences': 1" in src(e.node.value)
+            # which case is this path: the encoding already has an entry, or not
+            fm = sp.condition()
+            case, free = {}, []
+            for a in G.atoms_of(fm):
+                if a == f'{K} in {D}' or a in ENTRY or a in {f'nonempty({e_})' for e_ in ENTRY}:
+                    case[a] = True
+                elif a in {f'{e_} is None' for e_ in ENTRY}:
+                    case[a] = False
+                else:
+                    free.append(a)      # any other test: the path is taken for some tokens, and must count them correctly too
+            if len(free) > 10:
+                raise AnalysisError(f'{fr.loc}: too many conditions in the counting loop of frequencies')
+            present_cases = [pr for pr in (True, False)
+                             if any(G.evaluate(fm, dict({a: (v_ if pr else not v_) for a, v_ in case.items()}, **dict(zip(free, bits))))
+                                    for bits in itertools.product([False, True], repeat=len(free)))]
+            # what the path does to the entry of this encoding
+            created, delta, aliases = None, 0, set()
+            for e in sp.events:
+                n_ = e.node
+                if e.kind not in ('store', 'assign') or not isinstance(n_, (ast.Assign, ast.AugAssign)):
+                    if e.kind == 'expr' and D in src(e.expr):
+                        raise AnalysisError(f'{fr.loc}: `{src(e.expr)[:60]}` changes the table of frequencies in a way the rule does not follow')
+                    continue
+                if e.kind == 'store':
+                    tg = src(e.target)
+                    if tg == f'{D}[{K}]' and isinstance(n_, ast.Assign):
+                        occ = dict(zip([src(k_) for k_ in e.expr.keys], e.expr.values)).get("'occurrences'") if isinstance(e.expr, ast.Dict) else None
+                        if not (isinstance(occ, ast.Constant) and isinstance(occ.value, int)):
+                            raise AnalysisError(f'{fr.loc}: the entry created by frequencies is not a literal with a constant count')
+                        created, delta = occ.value, 0
+                        aliases |= {x.id for x in n_.targets if isinstance(x, ast.Name)}
+                        continue
+                    base = tg[:-len("['occurrences']")] if tg.endswith("['occurrences']") else None
+                    if base is not None and (base in ENTRY or base in aliases):
+                        if isinstance(n_, ast.AugAssign) and isinstance(n_.op, ast.Add) and isinstance(e.expr, ast.Constant) and isinstance(e.expr.value, int):
+                            delta += e.expr.value
+                            continue
+                        if isinstance(n_, ast.Assign) and isinstance(e.expr, ast.BinOp) and isinstance(e.expr.op, ast.Add) \
+                                and src(e.expr.left) == tg and isinstance(e.expr.right, ast.Constant) and isinstance(e.expr.right.value, int):
+                            delta += e.expr.right.value
+                            continue
+                    if D in tg or any(tg.startswith(a_ + '[') for a_ in aliases):
+                        raise AnalysisError(f'{fr.loc}: the store to `{tg[:60]}` in frequencies is not followed')
+            for pr in present_cases:
+                seen_cases.add(pr)
+                after = (None if created is None else created + delta) if not pr else (delta if created is None else None)
+                want = 1
+                if pr and created is not None:
+                    okf, why_f = False, why_f or 'an existing entry is overwritten: its count starts again'
+                elif after != want:
+                    okf, why_f = False, why_f or (f'a token whose encoding was {"already" if pr else "not yet"} listed '
+                                                    f'{"adds " + str(after) if pr else "starts with the count " + str(after)}, expected 1')
+        if okf and seen_cases != {True, False}:
+            raise AnalysisError(f'{fr.loc}: the counting loop of frequencies does not distinguish new from known encodings')
     ctx.check(okf, 'R3', fr.loc, fr.qualname, 'frequencies-count',
               'every token of the (filtered) listing adds exactly 1 to exactly one entry: the counts sum to the listing',
-              'frequencies does not add exactly 1 per listed token')
+              'frequencies does not add exactly 1 per listed token' + (f': {why_f}' if why_f else ''))
 
 
 # --------------------------------------------------------------------------- R4
@@ -286,11 +437,14 @@ def r5_monophony(ctx):
     f = ctx.prog.func(f'{N.PUBLIC}.is_monophonic')
     d = f.params[0]
     rets = symex.returns(f)
-    if len(rets) != 1:
-        ctx.violation('R5', f.loc, f.qualname, 'monophony-shape', f'{len(rets)} return paths')
-        return
-    val = F.fold(ctx, rets[0][1], f)
-    fm = G._formula(val)
+    if not rets or len(rets) > 16:
+        raise AnalysisError(f'{f.loc}: is_monophonic has {len(rets)} return paths')
+    # the answer as one formula: on each path the path condition and the returned truth value (early returns, a single
+    # conjunction and nested tests are the same function of the three facts)
+    fm = ('const', False)
+    for cond, val, sp in rets:
+        pc = G._formula(F.fold(ctx, F._conj_node(sp), f)) if sp.conds else ('const', True)
+        fm = G.disj([fm, G.conj([pc, G._formula(F.fold(ctx, val, f))])])
     kern = f"1 == len(spine_types({d}, ['**kern']))"
     chord = f'nonempty({d}.get_all_tokens(filter_by_categories=[TokenCategory.CHORD]))'
     note = f'nonempty({d}.get_all_tokens(filter_by_categories=[TokenCategory.NOTE_REST]))'
